@@ -10,3 +10,9 @@ import PycommProps.C02
 #print axioms Pycomm.C02.write_then_read
 #print axioms Pycomm.C02.write_frag_e2e
 #print axioms Pycomm.C02.rmw_e2e
+#print axioms Pycomm.C02.write_atomic_scalar_e2e
+#print axioms Pycomm.C02.write_atomic_scalar_effect
+#print axioms Pycomm.C02.write_then_read_atomic_e2e
+#print axioms Pycomm.C02.write_atomic_scalar_e2e_db
+#print axioms Pycomm.C02.ldw_bit_law
+#print axioms Pycomm.C02.write_bit_e2e
